@@ -59,7 +59,11 @@ BadSplit(e) ==
                                 THEN {"C06.preserves.tail_lost"} ELSE {"C06.preserves"})
                         ELSE IF Tiles(u, parts, 1, 0, "all") THEN {}
                         ELSE T(~Tiles(u, parts, 1, 0, "size"), "C07.partsize")
-                             \cup T(~Tiles(u, parts, 1, 0, "whole"), "C14.cut"))
+                             \cup T(~Tiles(u, parts, 1, 0, "whole"), "C14.cut")
+                             \* the packed path is the boundary-aware one (no recorded finding there): an escape pair
+                             \* cut by a boundary also alters the text for a receiver that unpacks each part by its
+                             \* septet count and decodes it on its own, which is the reading C06 states
+                             \cup T(~Tiles(u, parts, 1, 0, "whole"), "C06.preserves.per_part"))
                 ELSE
                      T(IF FullySpecified(kind) THEN ~PreservesOct(parts, u) ELSE e.dec # e.text, "C06.preserves")
                 \cup T(\E i \in 1..Len(parts) : Len(parts[i]) = 6 \/ Len(parts[i]) - 6 > PerOf(kind), "C07.partsize")
